@@ -26,8 +26,10 @@ TECHNIQUE = ('runtime monitoring: exhaustive sweep of the live tables against an
 LEVEL_TEXT = ('Every element (Z = 0..118) and every ion charge listed for it is read through the public attributes on the '
               'public table and on private tables created at several points of a process history, and compared with an '
               'independent regular-expression reader of the five embedded tables; form factors are evaluated on a grid of '
-              '200 Q values in [0, 30] against an own evaluation of the stated expression. The sweep is exhaustive over '
-              'table rows and elements, so the only sampling is over process histories and over Q.')
+              '200 Q values in [0, 30] (thorough tier: plus 300 seeded uniform / log-uniform values) against an own '
+              'evaluation of the stated expression. The sweep is exhaustive over table rows and elements, so the only '
+              'sampling is over process histories (quick: fresh and reloaded private table; thorough: also late, '
+              'after-mutation and interleaved tables) and over Q.')
 LEVEL_NOTE = ('Trusted: the regex reader pvmon/ref/ancillary.py, CPython float parsing and math.exp, the embedded strings / '
               'data file as specification (list position = Z for crystal structures, first numbered row for spin states).')
 SHARDS = {'quick': 2, 'thorough': 4}
@@ -179,11 +181,11 @@ def _build(ctx):
         reach.watch(cromermann.CromerMannFormula.atstol, 'cromermann.atstol')
         # row-level line counters are best effort: a changed source line only loses the counter
         for func, text, label in (
-                (covalent_radius.init, 'table[Z].covalent_radius = r', 'rows.covalent_radius'),
-                (crystal_structure.init, 'table[Z].crystal_structure = struct', 'rows.crystal_structure'),
-                (xsf.init_spectral_lines, 'el.K_beta1 = float(K_beta1)', 'rows.spectral_lines'),
-                (magnetic_ff.init, 'setattr(el.magnetic_ff[charge], jn, values)', 'rows.magnetic_ff'),
-                (cromermann._update_cmformulas, '_cmformulas[cmf.symbol] = cmf', 'rows.cromermann')):
+                (covalent_radius.init, 'table[Z].covalent_radius =', 'rows.covalent_radius'),
+                (crystal_structure.init, 'table[Z].crystal_structure =', 'rows.crystal_structure'),
+                (xsf.init_spectral_lines, 'el.K_beta1 =', 'rows.spectral_lines'),
+                (magnetic_ff.init, 'setattr(el.magnetic_ff[charge]', 'rows.magnetic_ff'),
+                (cromermann._update_cmformulas, '_cmformulas[cmf.symbol] =', 'rows.cromermann')):
             try:
                 reach.watch_line_matching(func, text, label)
                 _state.setdefault('row_counters', []).append(label)
